@@ -137,7 +137,7 @@ def needs_key(v):
         return any(needs_key(x) for x in v)
     if isinstance(v, frozenset):
         return any(type(x) is SymKey for x in v)
-    if type(v).__name__ in ("ArrStr", "NumStr"):
+    if type(v).__name__ in ("ArrStr", "NumText"):
         return True
     return False
 
@@ -219,8 +219,8 @@ def has_symkey(v):
 
 
 def has_sym(v, depth=0):
-    if type(v) is Sym or type(v) is SObj or type(v) is NDArr or type(v).__module__ == "pyvc.shapely_model" or type(v) is SymKey \
-            or type(v).__name__ in ("ArrStr", "NumStr"):
+    if type(v) is Sym or type(v) is SObj or type(v) is NDArr or type(v).__module__ in ("pyvc.shapely_model", "pyvc.xmlmodel") or type(v) is SymKey \
+            or type(v).__name__ in ("ArrStr", "NumText"):
         return True
     if depth > 3:
         return False
@@ -243,9 +243,10 @@ class Interp:
         from . import libmodels
 
         self.models = libmodels.build_models()
-        from . import shapely_model
+        from . import shapely_model, xmlmodel
 
         shapely_model.install(self.models)
+        xmlmodel.install(self.models)
         if models:
             self.models.update(models)
         self.summaries = summaries or {}  # qualname -> callable(interp, args, kwargs) -> value
@@ -254,6 +255,7 @@ class Interp:
         self.depth = 0
         self.frames = []
         self.write_log = []  # (obj, attr) attribute writes on objects, for frame conditions
+        self.class_overlay = {}  # (class, attribute) -> value : assignments to class attributes of repository classes
         self.trace_calls = []
 
     # ========================================================================== calls
@@ -627,11 +629,22 @@ class Interp:
             from . import shapely_model
 
             return shapely_model.strtree_attr(self, obj, name)
+        if type(obj).__module__ == "pyvc.xmlmodel":
+            from . import xmlmodel
+
+            if type(obj).__name__ == "XElem":
+                return xmlmodel.elem_attr(self, obj, name)
+            if type(obj).__name__ == "XTree":
+                return xmlmodel.tree_attr(self, obj, name)
+            raise Unsupported("attribute %s of %s" % (name, type(obj).__name__))
         if type(obj) is Sym:
             from . import libmodels
 
             return libmodels.scalar_attr(self, obj, name)
         if isinstance(obj, type) and is_repo_class(obj):
+            for k in obj.__mro__:
+                if (k, name) in self.class_overlay:
+                    return self.class_overlay[(k, name)]
             found = self.lookup_class_attr(obj, name)
             if found is None:
                 try:
@@ -706,6 +719,28 @@ class Interp:
         self.write_log.append((obj, name))
 
     def setattr(self, obj, name, value):
+        if type(obj).__name__ == "XElem" and type(obj).__module__ == "pyvc.xmlmodel":
+            if name in ("text", "tail"):
+                if value is not None and not isinstance(value, str) and type(value).__name__ != "NumText":
+                    if obj.flavour == "lxml":
+                        raise PyExc(TypeError, ("Argument must be bytes or unicode, got '%s'" % pytype(value).__name__,))
+                    # ElementTree accepts any object here and fails when serialising
+                    raise PyExc(TypeError, ("cannot serialize %r (type %s)" % ("<value>", pytype(value).__name__),))
+                if self.ctx.spec_depth > 0:
+                    raise SpecAbort()
+                setattr(obj, name, value)
+                return
+            if name == "tag":
+                obj.tag = value
+                return
+            raise PyExc(AttributeError, ("'Element' object has no attribute '%s'" % name,))
+        if isinstance(obj, type) and is_repo_class(obj):
+            # mutable class attribute of a repository class (process-global state, e.g. the writers' decimal precision)
+            if self.ctx.spec_depth > 0:
+                raise SpecAbort()
+            self.class_overlay[(obj, name)] = value
+            self.write_log.append((obj, name))
+            return
         if type(obj) is SObj:
             found = self.lookup_class_attr(obj.cls, name)
             if found is not None:
@@ -1560,16 +1595,19 @@ class Interp:
             if type(a).__name__ == "dict_items":
                 return self.container_eq(opcls, dict(a), dict(b))
             return self.container_eq(opcls, set(a), set(b))
-        if type(a).__name__ == "NumStr" or type(b).__name__ == "NumStr":
+        if type(a).__name__ == "NumText" or type(b).__name__ == "NumText":
             if opcls not in (ast.Eq, ast.NotEq):
                 raise Unsupported("ordering of number strings")
-            if type(a).__name__ == "NumStr" and type(b).__name__ == "NumStr":
-                from .core import is_float_type as _isf
-
-                if _isf(a.sym.ty) != _isf(b.sym.ty):
+            if type(a).__name__ == "NumText" and type(b).__name__ == "NumText":
+                if a.cls == "plain" or b.cls == "plain":
+                    raise Unsupported("comparison of truncated number strings")
+                if (a.cls == "int") != (b.cls == "int"):
                     return opcls is ast.NotEq
-                return ops.compare(opcls, a.sym, b.sym)
-            raise Unsupported("comparison of a symbolic number string with %r" % (b if type(a).__name__ == "NumStr" else a,))
+                return ops.compare(opcls, a.value, b.value)
+            other = b if type(a).__name__ == "NumText" else a
+            if not isinstance(other, str):
+                return opcls is ast.NotEq
+            raise Unsupported("comparison of a symbolic number string with %r" % (other,))
         if type(a).__name__ == "ArrStr" or type(b).__name__ == "ArrStr":
             if type(a).__name__ != "ArrStr" or type(b).__name__ != "ArrStr":
                 return opcls is ast.NotEq
